@@ -31,7 +31,8 @@ THEOREMS = ["JanetModel.Props.C10." + t for t in (
     "JanetModel.Bytecode.verify_sound_generic", "JanetModel.PegVerify.peg_verify_sound_generic",
     "JanetModel.Props.C10.unmarshal_total_inbounds_of_sites_ok", "JanetModel.Props.C10.unmarshal_terminates_of_sites_ok",
     "JanetModel.Props.C10.witness_missing_check_over_reads"]
-BYTES_OBLIGATIONS = ["JanetModel.Unmarsh.BytesObligations." + t for t in ("sites_ok", "unmarshal_total_inbounds", "unmarshal_terminates")]
+BYTES_OBLIGATIONS = ["JanetModel.Unmarsh.BytesObligations." + t for t in ("sites_ok", "unmarshal_total_inbounds", "unmarshal_terminates", "peg_size_checked", "asm_ok_only_after_verify")] + [
+    "JanetModel.Unmarsh.PegSize.peg_alloc_covers_writes", "JanetModel.Unmarsh.PegSize.witness_peg_size_wraps"]
 PEG_OBLIGATIONS = ["JanetModel.PegVerify.Obligations." + t for t in ("peg_tables_consistent", "peg_verify_sound")]
 IMAGE_OBLIGATIONS = ["JanetModel.Unmarsh.Obligations." + t for t in ("image_checks_present", "fiber_image_wf", "function_image_wf", "env_untrusted_checked")]
 # witness image -> the check (Gen/ImageChecks.lean field) whose presence must reject it
@@ -511,9 +512,35 @@ def run(ctx):
     for name, b in wit:
         cases.insert(0, ("witness", name, "u " + b.hex()))
     cases = [c if len(c) == 4 else tuple(c) + (None,) for c in synth + cases]
+    # (D4, first half) inputs for the byte-level model correspondence: the same byte strings once more as `m` lines (plain
+    # janet_unmarshal with &next, no exercising), run in the same pool; the Lean driver works on them meanwhile
+    bpick = []
+    model_thread = None
+    model_out = {}
+    if exe:
+        brng = ctx.rng.fork("bytes-model")
+        keep = {"subst": 6, "fiber": 2, "mfiber": 3, "peg": 2, "real": 4} if quick else {"subst": 2}
+        for i, c in enumerate(cases):
+            if not c[2].startswith("u "):
+                continue
+            k = keep.get(c[0], 1)
+            if k > 1 and not brng.chance(1, k):
+                continue
+            bpick.append(i)
+        nbase = len(cases)
+        for i in bpick:
+            cases.append(("bytes-m", cases[i][1], "m " + cases[i][2][2:], None))
+        import threading
+
+        def _run_model():
+            model_out["um"] = ctx.model(["umsites"] + [("um " + cases[i][2][2:]).strip() for i in bpick], exe=exe)
+        model_thread = threading.Thread(target=_run_model)
+        model_thread.start()
     lines = [c[2] for c in cases]
     ctx.say("running %d inputs through the ASan harness" % len(lines))
     outs, crashes = run_parallel(hx, lines)
+    if model_thread is not None:
+        model_thread.join()
     stats = {}
     for (kind, label, line, _m), o in zip(cases, outs):
         s = stats.setdefault(kind, {"n": 0, "acc": 0, "rej": 0, "died": 0})
@@ -602,22 +629,14 @@ def run(ctx):
     # valid images, every truncation, substitutions, random bytes and the generated function / fiber / PEG images
     bstats = {"compared": 0, "acc": 0, "rej": 0, "differ": 0, "model_oob": 0, "model_fuel": 0, "by_generator": {}, "model_reject_classes": {}}
     bad_sites = []
-    if exe:
-        r = ctx.model(["umsites"], exe=exe)[0]
+    if exe and "um" in model_out:
+        r = model_out["um"][0]
         bad_sites = r.split()[1:] if r.startswith("bad") else []
         for bs in bad_sites:
             broken.append("unmarshal_total_inbounds: the MARSH_EOS test of read site %s of marsh.c is missing or does not cover the reads made under it" % bs)
-        brng = ctx.rng.fork("bytes-model")
-        pick = []
-        for i, c in enumerate(cases):
-            if not c[2].startswith("u "):
-                continue
-            if c[0] == "subst" and quick and not brng.chance(1, 4):
-                continue
-            pick.append(i)
-        mlines = ["m " + cases[i][2][2:] for i in pick]
-        mouts, mcrashes = run_parallel(hx, mlines)
-        mo = ctx.model([("um " + cases[i][2][2:]).strip() for i in pick], exe=exe)
+        pick = bpick
+        mo = model_out["um"][1:]
+        mouts = outs[nbase:nbase + len(bpick)]
         bdiff, oob_inputs = [], []
         for i, ml, io in zip(pick, mo, mouts):
             g = bstats["by_generator"].setdefault(cases[i][0], 0)
